@@ -106,3 +106,21 @@ def check(ctx):
                      "code (C05/R4). Not decided: blocks outside the corpus.")
     ctx.assumptions += ["the generator's encoding of the documented reading (witness/gen.py)",
                         "a built timeline and its builder are interchangeable TimelineOrBuilder values (C17/G9)"]
+
+
+def controls(ctx, F):
+    bm = F.one(crate="witness_controls", name="ctl_animator_macro")
+    br = F.one(crate="witness_controls", name="ctl_animator_ref")
+    em, pm = tv.summarize(F, bm)
+    er, pr = tv.summarize(F, br)
+    pairs = tv.pair_paths(pm, pr)
+    ok = pairs is not None
+    diffs = {}
+    if ok:
+        for (xm, xr) in pairs:
+            rm, rr = tv.animator_record(xm.ret), tv.animator_record(xr.ret)
+            cm = {k: v for k, v in rm.items() if k != "order"}
+            cr = {k: v for k, v in rr.items() if k != "order"}
+            ok = tv.same(cm, cr, diffs, "animator") and ok
+    ctx.ob("R1", "control/pair", ok, "control pair differs: %s" % diffs.get("diff", [])[:2], what="macro-differs-from-builder")
+    return [("R1", "macro-differs-from-builder", "an animator! block and a builder chain that omits one state")]
